@@ -94,8 +94,7 @@ func randomRun(cfgPath string, seed int64, nbeh int, outPath string) error {
 				pendingTx = committedTx
 			}
 			i++
-			ln := line{B: b, I: i, Act: raw, Res: lineRes{Class: res.Class, Code: res.Code, Updates: res.Updates, UpdDup: res.UpdDup,
-				Halt: res.Halt, Hash: res.Hash, Events: res.Events, TmErr: res.TmErr}, Post: toPost(r.A.Project(), rc.FracDen)}
+			ln := line{B: b, I: i, Act: raw, Res: toLineRes(res), Post: toPost(r.A.Project(), rc.FracDen)}
 			ln.Post.DAuth, ln.Post.DRest = r.A.Digests()
 			if err := enc.Encode(ln); err != nil {
 				panic(err)
